@@ -19,6 +19,10 @@ type FrameResult struct {
 	Blocks   []FrameBlock
 	Legacy   bool
 	HeaderAt int // index just after the header (0 when no header was read)
+	// LinkedOK (diagnosis only, not part of LZ4Frame.tla's result): the legacy block that made the status
+	// bad_block decodes when the preceding content is offered as its dictionary, i.e. it is only bad because
+	// a match reaches into the previous block
+	LinkedOK bool
 }
 
 var (
@@ -224,6 +228,15 @@ func legacyBlocks(s []byte, i int) FrameResult {
 		dec, _ := DecodeBlock(s[i+4:i+4+size], nil, legacyBlock, true)
 		r.Blocks = append(r.Blocks, FrameBlock{size, false, -1})
 		if dec.Kind != "ok" {
+			if len(r.Content) > 0 {
+				d := r.Content
+				if len(d) > 65536 {
+					d = d[len(d)-65536:]
+				}
+				if dl, _ := DecodeBlock(s[i+4:i+4+size], d, legacyBlock, true); dl.Kind == "ok" {
+					r.LinkedOK = true
+				}
+			}
 			return done("bad_block", i+4+size)
 		}
 		r.Blocks[len(r.Blocks)-1].Dec = len(dec.Out)
